@@ -42,8 +42,78 @@ def _replay(r):
 
 
 def check(pid, tier, seed):
-    return p_sync.check(pid, tier, seed, {"scenarios": SCEN, "replay": _replay})
+    run = p_sync.check(pid, tier, seed, {"scenarios": SCEN, "replay": _replay})
+    poll_obligation(run)
+    return run
+
+
+def poll_obligation(run):
+    """E3q: delivering an interrupt does not clear the request (lib/p_order.analyse_poll)"""
+    import os, re, json, shutil, subprocess, time
+    import ws, p_order
+    oid = "poll:delivering-an-interrupt-does-not-clear-the-request"
+    t0 = time.time()
+    try:
+        wsdir = ws.prepare("c17mir", [])
+        root = os.path.dirname(wsdir)
+        out = os.path.join(root, "steel_core.mir")
+        env = ws.mir_dump(wsdir, root, out)
+        r = p_order.analyse_poll(open(out).read())
+    except Exception as ex:
+        run.ob(oid, "inconclusive", reason="extraction failed: %s" % str(ex)[-300:], engine="mir-smt")
+        return
+    common = dict(engine="mir-smt/z3", wall_s=round(time.time() - t0, 1), solver_s=round(r["dt"], 3), solver_checks=2)
+    run.samples.append({"engine": "mir-smt", "query": "exists a path in VmCore::safepoint_or_interrupt from the arm taken when the loaded state is Interrupted to a call that writes the controller (resume / store to the state cell / store to paused); rank-encoded reachability, z3",
+                        "arm": "bb%d" % r["arm"], "controller writes anywhere in the poll": r["controller_writes_in_poll"]})
+    run.functions.append("steel_vm::vm::VmCore::safepoint_or_interrupt: the Interrupted arm does not write the thread-state controller (MIR control flow)")
+    run.assumptions.append("poll (E3q): only direct calls in safepoint_or_interrupt are seen (a write hidden in a callee of the arm is not); the native replay is a serve-forever loop under with-handler, one interrupt(), 12 s watchdog")
+    if r["res"] == "error" or r["witness"] != "sat":
+        run.ob(oid, "inconclusive", reason="solver error or the Interrupted arm does not reach a return in the extracted control flow", **common)
+        return
+    if r["res"] == "unsat":
+        run.ob(oid, "pass", nonvacuous=True, note="the Interrupted arm raises the error without writing the controller: only the host's resume() clears the request", **common)
+        return
+    what = "the Interrupted arm of the interpreter's poll writes the thread-state controller (bb %s): the request is cleared by the poll that delivers it" % r["controller_writes_in_poll"]
+    try:
+        shutil.copy(os.path.join(ws.VERIF, "harness", "arity_replay.rs"), os.path.join(wsdir, "crates", "steel-core", "tests", "verif_arity_replay.rs"))
+        p = subprocess.run(["cargo", "test", "--offline", "-p", "steel-core", "--no-default-features", "--features", ws.FEATURES,
+                            "--test", "verif_arity_replay", "--target-dir", os.path.join(root, "tn"), "--", "interrupt_handler_replay", "--exact", "--nocapture"],
+                           cwd=wsdir, env=env, capture_output=True, text=True, timeout=2400)
+        m = re.search(r"OBSERVED: (.*)", p.stdout + p.stderr)
+    except Exception as ex:
+        run.ob(oid, "inconclusive", reason="replay failed: %s" % str(ex)[-300:], **common)
+        return
+    if not m:
+        run.ob(oid, "inconclusive", reason="solver: %s; the serving loop stopped natively" % what, **common)
+        return
+    d = os.path.join(ws.VERIF, "replays", run.pid)
+    os.makedirs(d, exist_ok=True)
+    path = os.path.join(d, "poll_clears_request.json")
+    json.dump({"property": run.pid, "kind": "poll", "what": what, "observed": m.group(1), "how": "./check %s --replay <this file>" % run.pid}, open(path, "w"), indent=1)
+    key = "poll:interrupt-cleared-by-delivery"
+    if run.is_known(key):
+        run.known_hit(key, run.known[(run.pid, key)] + " -- " + m.group(1)[:200])
+        run.ob(oid, "known", nonvacuous=True, **common)
+    else:
+        run.violation(key, "%s; natively: %s" % (what, m.group(1)[:300]), path)
+        run.ob(oid, "fail", note=m.group(1)[:200], **common)
 
 
 def replay(pid, path):
+    import json
+    payload = json.load(open(path))
+    if payload.get("kind") == "poll":
+        import os, re, shutil, subprocess, ws
+        wsdir = ws.prepare("c17replay", [])
+        root = os.path.dirname(wsdir)
+        shutil.copy(os.path.join(ws.VERIF, "harness", "arity_replay.rs"), os.path.join(wsdir, "crates", "steel-core", "tests", "verif_arity_replay.rs"))
+        p = subprocess.run(["cargo", "test", "--offline", "-p", "steel-core", "--no-default-features", "--features", ws.FEATURES,
+                            "--test", "verif_arity_replay", "--target-dir", os.path.join(root, "tn"), "--", "interrupt_handler_replay", "--exact", "--nocapture"],
+                           cwd=wsdir, env=dict(os.environ, CARGO_NET_OFFLINE="true"), capture_output=True, text=True)
+        m = re.search(r"OBSERVED: (.*)", p.stdout + p.stderr)
+        print("observed:", m.group(1) if m else "not reproduced")
+        if m:
+            print("VIOLATION property=%s replay=%s" % (pid, path))
+            return 1
+        return 0
     return p_sync.replay(pid, path)
